@@ -55,6 +55,25 @@ def _border_signature(f) -> Dict[str, object]:
                             and isinstance(m.left.value, ast.Call) and call_name(m.left.value) in ("np.where", "numpy.where") \
                             and any(x is n for x in ast.walk(m.left.value)):
                         sig["plus1"] = True
+                    # np.flatnonzero(<cmp>) + 1 / np.nonzero(<cmp>)[0] + 1
+                    if isinstance(m, ast.BinOp) and isinstance(m.op, ast.Add) and isinstance(m.right, ast.Constant) and m.right.value == 1:
+                        l2 = m.left
+                        if isinstance(l2, ast.Subscript) and norm(l2.slice) == "0" and isinstance(l2.value, ast.Call) and call_name(l2.value) in ("np.nonzero", "numpy.nonzero"):
+                            l2 = l2.value
+                        if isinstance(l2, ast.Call) and call_name(l2) in ("np.flatnonzero", "numpy.flatnonzero", "np.nonzero", "numpy.nonzero") \
+                                and any(x is n for x in ast.walk(l2)):
+                            sig["plus1"] = True
+                            sig["starts_node"] = m
+    # np.split(A, starts): the cuts 0 | starts | len(A) and the pairing of consecutive cuts are what np.split does
+    if sig.get("starts_node") is not None:
+        pm = fctx(f)[2]
+        du = fctx(f)[1]
+        st = enclosing(pm, sig["starts_node"], ast.stmt)
+        sname = st.targets[0].id if isinstance(st, ast.Assign) and isinstance(st.targets[0], ast.Name) and st.value is sig["starts_node"] else None
+        for c in ast.walk(f.node):
+            if isinstance(c, ast.Call) and call_name(c) in ("np.split", "numpy.split") and len(c.args) == 2 and \
+                    (c.args[1] is sig["starts_node"] or (sname is not None and norm(c.args[1]) == sname)):
+                sig["start0"], sig["endlen"], sig["pairs"] = True, norm(c.args[0]), True
     for n in ast.walk(f.node):
         if isinstance(n, ast.BinOp) and isinstance(n.op, ast.Add):
             # [0] + list(…) + [len(X)]
